@@ -311,12 +311,13 @@ def main():
             print(mu["id"], "SIM-BUILD-FAILED"); print(out); results.append((mu, "sim-build-failed", "", 0)); continue
         props = [mu["prop"]]
         if all_props:
-            props = ["C%02d" % i for i in range(1, 17)]
+            props = ["C%02d" % i for i in range(1, 17)] + ["C18"]
         caught = []
         status = "MISSED"
         inv = ""
         for pr in props:
-            rc, out = sh(f"{SIM}/target/release/hpke-sim run {pr} --evidence {ROOT}/ev.json --replay-dir {ROOT}/rp --known /nonexistent", cwd=SIM)
+            scale = " --scale 0.2" if (all_props and pr != mu["prop"]) else ""
+            rc, out = sh(f"{SIM}/target/release/hpke-sim run {pr}{scale} --evidence {ROOT}/ev.json --replay-dir {ROOT}/rp --known /nonexistent", cwd=SIM)
             if rc == 1:
                 mv = re.search(r"VIOLATION property=(\S+) replay=(\S+)", out)
                 iv = re.search(r"violation in run \d+ \(seed \S+\): (\S+)", out)
